@@ -151,6 +151,27 @@ UNITS.append(dict(
 # Stated from the definition with the ghost g_lz = index of the lowest non-zero limb of R:  z = min (n/64, g_lz) whole limbs are dropped, then shift = min (ctz (R[z]), n - 64z) bits
 # (R[z] == 0 only when z < g_lz, then n - 64z < 64 bits are all there is to remove).  Limb gk of the result is ((R >> 64z) >> shift)[gk]; its size is |R| - z or one less (dropped top limb
 # zero); mpz_mul_2exp / mpz_set is called on (L-part of dst, L-part of src) with exactly n - 64z - shift.  defect bc7e1ad (copy direction in place) is what this unit refutes on the old text.
+M2_STUB = r'''/* mpz_mul_2exp / mpz_set below mord_2exp: ASSUMED models (stubs, not proofs): operands must be well formed; the destination is re-allocated when the result needs more limbs; the result is well formed with the
+   sign of u and |u| + cnt/64 (+1) limbs (resp. a copy's size); its limbs are arbitrary (top limb non-zero) - the VALUE of mpz_mul_2exp is not decided here (DESIGN 11.3) */
+void __gmpz_mul_2exp (mpz_ptr w, mpz_srcptr u, mp_bitcnt_t cnt)
+{
+  __CPROVER_assert (V_WF (w) && V_WF (u) && V_ABSIZ (u) + (long) (cnt / 64) + 1 <= V_ZMAX, "[C12][C04] mpz_mul_2exp is called on well-formed operands with a representable result size");
+  long su = V_SIZ (u), un = V_ABS (su), need = un + (long) (cnt / 64) + 1;
+  if (su == 0) { w->_mp_size = 0; return; }
+  if (need > V_ALLOC (w)) { free (V_PTR (w)); w->_mp_d = malloc (need * 8); __CPROVER_assume (w->_mp_d != (void *) 0); w->_mp_alloc = need; }
+  long ns = nondet_bool () ? need : need - 1;
+  mp_limb_t t = nondet_ulong (); __CPROVER_assume (t != 0); w->_mp_d[ns - 1] = t;
+  w->_mp_size = su < 0 ? -ns : ns;
+}
+void __gmpz_set (mpz_ptr w, mpz_srcptr u)
+{
+  __CPROVER_assert (V_WF (w) && V_WF (u), "[C12][C04] mpz_set is called on well-formed operands");
+  long su = V_SIZ (u), un = V_ABS (su);
+  if (un > V_ALLOC (w)) { free (V_PTR (w)); w->_mp_d = malloc (un * 8); __CPROVER_assume (w->_mp_d != (void *) 0); w->_mp_alloc = un; }
+  if (un) { mp_limb_t t = nondet_ulong (); __CPROVER_assume (t != 0); w->_mp_d[un - 1] = t; }
+  w->_mp_size = su;
+}
+'''
 M2_PRE = '''long g_lz, g_lcalled; unsigned long g_lcnt; const void *g_lsrc, *g_ldst;
 #define V_QSEP(d,s) (!__CPROVER_same_object (V_PTR (V_NUM (d)), V_PTR (V_NUM (s))) && !__CPROVER_same_object (V_PTR (V_NUM (d)), V_PTR (V_DEN (s))) \\
                   && !__CPROVER_same_object (V_PTR (V_DEN (d)), V_PTR (V_NUM (s))) && !__CPROVER_same_object (V_PTR (V_DEN (d)), V_PTR (V_DEN (s))) && !__CPROVER_same_object (d, s))
@@ -200,13 +221,13 @@ def _m2(op, alias):
                  inv='(__CPROVER_same_object (p, rsrc_ptr) && 0 <= II && II <= g_lz && g_lz < len && (unsigned long) II <= V_n0 / 64 && n == V_n0 - 64 * (unsigned long) II && plow == rsrc_ptr[II] && rsrc_ptr[g_lz] != 0 && V_R_OK (rsrc_ptr, len))'.replace('II', I),
                  dec='(g_lz - %s + 1)' % I, head='__CPROVER_assume (%s < g_lz ==> plow == 0);' % I)
     cp = copy_loop(['gk', 'V_cn'], 'incr')
-    u = dict(name=name, props=P, source='mpq/md_2exp.c', contracts=['mpn.h', 'mpz.h', 'c11.h', 'mpq.h'], contract_text=M2_PRE % dict(f=f, R=R, L=L),
-             enforce=[f], replace=['__gmpz_realloc', '__gmpn_rshift', '__gmpz_mul_2exp', '__gmpz_set'],
+    u = dict(name=name, props=P, source='mpq/md_2exp.c', contracts=['mpn.h', 'mpz.h', 'c11.h', 'mpq.h'], contract_text=M2_PRE % dict(f=f, R=R, L=L) + M2_STUB,
+             enforce=[f], replace=['__gmpz_realloc', '__gmpn_rshift'],
              functions={'mord_2exp': dict(nloops=2, loops={0: strip, 1: cp},
                                           inserts=[(r'__gmpz_mul_2exp \(ldst, lsrc, n\);', r'{ g_lcalled = 1; g_lcnt = n; g_lsrc = lsrc; g_ldst = ldst; \g<0> }'),
                                                    (r'__gmpz_set \(ldst, lsrc\);', r'{ g_lcalled = 2; g_lsrc = lsrc; g_ldst = ldst; \g<0> }')])},
              assumptions=['g_lz (index of the lowest non-zero limb of the divided part) is defined by a for-all (every limb below it is zero) that is instantiated by a woven assume at the limb the stripping loop has just read, and once in the harness',
-                          'mpz_mul_2exp is used by an ASSUMED shape contract (result well formed; its value is not decided, DESIGN 11.3); mpz_set, mpn_rshift, _mpz_realloc by their proved contracts',
+                          'mpz_mul_2exp and mpz_set below mord_2exp are ASSUMED models (stubs in the unit text: re-allocation when needed, well-formed result of the right sign and size, arbitrary limbs); the value of mpz_mul_2exp is not decided (DESIGN 11.3); mpn_rshift, _mpz_realloc by their proved contracts',
                           'count n <= 2^35; partition: ' + ('dst == src (in place)' if alias else 'dst and src distinct objects with distinct blocks')],
              harness=M2_H % dict(name=name, D=mpq_obj('D'), S=mpq_obj('S'), alias='  mpq_ptr d = &D; mpq_srcptr s = %s;' % ('d' if alias else '&S'), R=R, L=L, f=f), timeout=1500,
              selftest=[('mord_2exp', r'n -= shift;', ';'), ('mord_2exp', r'len -= \(rdst_ptr\[len-1\] == 0\);', ';'), ('mord_2exp', r'len -= \(p - rsrc_ptr\);', 'len -= (p - rsrc_ptr) - 1;')] if op == 'mul_2exp' and alias else [])
